@@ -1,5 +1,11 @@
 import MpireModel.Model.Worker
-/-! Helper lemmas and proofs for `Props/C11.lean` and `Props/C12.lean`.  Helpers live in `Mpire.Proofs.Worker`. -/
+/-! Helper lemmas and proofs for `Props/C11.lean` and `Props/C12.lean`.  Helpers live in `Mpire.Proofs.Worker`.
+
+Method: `St.acts` is kept in reverse order and only reversed by `finish`, so everything is stated on
+`s.acts.reverse`, filtered by `obs` (drops the acts no property looks at) or `obs2` (keeps only user-function
+entries, shipped results and the restart request).  Each function of the model gets a `_spec` lemma (any
+outcome) and an `_ok` lemma (nothing fails) saying what it appends to that filtered trace; `loop_inv` /
+`loop_prefix` turn per-entry facts about `handle` into facts about `run`. -/
 namespace Mpire.Proofs.Worker
 open Mpire.Worker
 
@@ -10,53 +16,1311 @@ def Shape (us : List (Kind × Nat)) : Prop :=
 
 def okEnv (env : Env) : Prop := env.initOut = .ok ∧ env.exitOut = .ok ∧ env.excAtEnd = false
 
+/-! ## The loop: every run ends in `finish` of some state -/
+
+def lifespanSt (s : St) (env : Env) : St :=
+  if (forcedPB s).params.hasExit then (runExit (forcedPB s) env).1 else forcedPB s
+
+theorem lifespanEnd_eq (s : St) (env : Env) : lifespanEnd s env = finish (lifespanSt s env) env := by
+  unfold lifespanEnd lifespanSt
+  dsimp only
+  split <;> rfl
+
+theorem loop_prefix (env : Env) (Inv Fin : St → Prop) (pre rest : List Item)
+    (hstep : ∀ s it, it ∈ pre → Inv s → reached s = false → s.flag = false →
+      ((handle s env it).2 = true → Fin (handle s env it).1) ∧
+      ((handle s env it).2 = false → Inv (handle s env it).1))
+    (hreached : ∀ s, Inv s → reached s = true → Fin (lifespanSt s env))
+    (hflag : ∀ s, Inv s → reached s = false → s.flag = true → Fin s) :
+    ∀ s, Inv s → ∃ s', (Fin s' ∧ loop env s (pre ++ rest) = finish s' env) ∨
+      (Inv s' ∧ loop env s (pre ++ rest) = loop env s' rest) := by
+  induction pre with
+  | nil => intro s hs; exact ⟨s, Or.inr ⟨hs, rfl⟩⟩
+  | cons it pre ih =>
+    intro s hs
+    have ih' := ih (fun s it' hm => hstep s it' (List.mem_cons_of_mem _ hm))
+    simp only [List.cons_append, loop]
+    cases hr : reached s with
+    | true => exact ⟨_, Or.inl ⟨hreached s hs hr, by simp [lifespanEnd_eq]⟩⟩
+    | false =>
+      cases hf : s.flag with
+      | true => exact ⟨_, Or.inl ⟨hflag s hs hr hf, by simp⟩⟩
+      | false =>
+        have hst := hstep s it (List.mem_cons_self ..) hs hr hf
+        cases hret : (handle s env it).2 with
+        | true => exact ⟨_, Or.inl ⟨hst.1 hret, by simp⟩⟩
+        | false =>
+          obtain ⟨s', h⟩ := ih' _ (hst.2 hret)
+          exact ⟨s', by simpa [hret] using h⟩
+
+theorem loop_inv (env : Env) (Inv Fin : St → Prop) (items : List Item)
+    (hstep : ∀ s it, it ∈ items → Inv s → reached s = false → s.flag = false →
+      ((handle s env it).2 = true → Fin (handle s env it).1) ∧
+      ((handle s env it).2 = false → Inv (handle s env it).1))
+    (hreached : ∀ s, Inv s → reached s = true → Fin (lifespanSt s env))
+    (hnil : ∀ s, Inv s → reached s = false → Fin s) :
+    ∀ s, Inv s → ∃ s', Fin s' ∧ loop env s items = finish s' env := by
+  intro s hs
+  obtain ⟨s', h⟩ := loop_prefix env Inv Fin items [] hstep hreached (fun s h1 h2 _ => hnil s h1 h2) s hs
+  rw [List.append_nil] at h
+  rcases h with h | ⟨hi, he⟩
+  · exact ⟨s', h⟩
+  · rw [he]
+    simp only [loop]
+    cases hr : reached s' with
+    | true => exact ⟨_, hreached s' hi hr, by simp [lifespanEnd_eq]⟩
+    | false => exact ⟨_, hnil s' hi hr, by simp⟩
+
+/-! ## Observable part of a trace -/
+
+/-- acts no property looks at -/
+def noise : Act → Bool
+  | .workingOn _ | .stampStart _ | .stampClear _ | .raise_ _ | .pb _ | .waitPB => true
+  | _ => false
+
+def obs (l : List Act) : List Act := l.filter (fun a => !noise a)
+
+@[simp] theorem obs_nil : obs [] = [] := rfl
+@[simp] theorem obs_append (a b : List Act) : obs (a ++ b) = obs a ++ obs b := by simp [obs]
+theorem obs_cons (a : Act) (l : List Act) : obs (a :: l) = if noise a then obs l else a :: obs l := by
+  simp only [obs, List.filter_cons]; cases noise a <;> simp
+
+@[simp] theorem emit_acts (s : St) (l : List Act) : (s.emit l).acts = l.reverse ++ s.acts := rfl
+@[simp] theorem emit_params (s : St) (l : List Act) : (s.emit l).params = s.params := rfl
+@[simp] theorem emit_executed (s : St) (l : List Act) : (s.emit l).executed = s.executed := rfl
+@[simp] theorem emit_initDone (s : St) (l : List Act) : (s.emit l).initDone = s.initDone := rfl
+@[simp] theorem emit_flag (s : St) (l : List Act) : (s.emit l).flag = s.flag := rfl
+@[simp] theorem emit_lastJob (s : St) (l : List Act) : (s.emit l).lastJob = s.lastJob := rfl
+
+theorem runSafely_obs (k : Kind) (id : Nat) (job : Int) (ia : Bool) (o : Outcome) :
+    obs (runSafely k id job ia o).1 = if o = .excAlready then [] else [.user k id] := by
+  cases o <;> cases ia <;> simp [runSafely, obs_cons, noise]
+
+/-- `runInit`, any outcome -/
+theorem runInit_spec (s : St) (env : Env) :
+    ∃ b : Bool, obs (runInit s env).1.acts.reverse = obs s.acts.reverse ++ (if b then [.user .init 0] else []) ∧
+      (runInit s env).1.params = s.params ∧ (runInit s env).1.executed = s.executed := by
+  unfold runInit
+  split
+  · exact ⟨false, by simp⟩
+  · generalize (if s.flag then Outcome.excAlready else env.initOut) = o
+    refine ⟨o != .excAlready, ?_⟩
+    have h := runSafely_obs .init 0 INIT_FUNC false o
+    cases hi : s.params.initTimeout <;> cases o <;>
+      simp_all [obs_cons, noise, runSafely]
+
+/-- `runInit` when nothing fails -/
+theorem runInit_ok (s : St) (env : Env) (hf : s.flag = false) (he : env.initOut = .ok) :
+    (runInit s env).2 = false ∧ (runInit s env).1.flag = false ∧ (runInit s env).1.initDone = true ∧
+    (runInit s env).1.params = s.params ∧ (runInit s env).1.executed = s.executed ∧
+    obs (runInit s env).1.acts.reverse = obs s.acts.reverse ++ (if s.initDone then [] else [.user .init 0]) := by
+  unfold runInit
+  cases hd : s.initDone
+  · cases hi : s.params.initTimeout <;> simp [hf, he, runSafely, obs_cons, noise]
+  · simp [hf, hd]
+
+def exitRes : Act := .addResults [(EXIT_FUNC, true, 0)]
+
+/-- `runExit`, any outcome -/
+theorem runExit_spec (s : St) (env : Env) :
+    ∃ b b' : Bool, obs (runExit s env).1.acts.reverse =
+        obs s.acts.reverse ++ (if b then [.user .exit 0] else []) ++ (if b' then [exitRes] else []) ∧
+      (env.exitOut = .ok → b' = b) ∧
+      (runExit s env).1.params = s.params ∧ (runExit s env).1.executed = s.executed := by
+  refine ⟨!s.flag && env.exitOut != .excAlready, !s.flag && env.exitOut == .ok, ?_⟩
+  unfold runExit
+  cases hf : s.flag <;> cases hi : s.params.exitTimeout <;> cases he : env.exitOut <;>
+    simp [runSafely, obs_cons, noise, exitRes]
+
+theorem forcedPB_spec (s : St) : obs (forcedPB s).acts.reverse = obs s.acts.reverse ∧
+    (forcedPB s).params = s.params ∧ (forcedPB s).executed = s.executed ∧ (forcedPB s).flag = s.flag ∧
+    (forcedPB s).initDone = s.initDone := by
+  unfold forcedPB; split <;> simp [obs_cons, noise]
+
+theorem runExit_ok (s : St) (env : Env) (hf : s.flag = false) (he : env.exitOut = .ok) :
+    (runExit s env).1.flag = false ∧ (runExit s env).1.params = s.params ∧
+    (runExit s env).1.executed = s.executed ∧ (runExit s env).1.initDone = s.initDone ∧
+    obs (runExit s env).1.acts.reverse = obs s.acts.reverse ++ [.user .exit 0, exitRes] := by
+  unfold runExit
+  cases hi : s.params.exitTimeout <;> simp [hf, he, runSafely, obs_cons, noise, exitRes]
+
+/-! ## `runTasks` -/
+
+def workOn (s : St) (job : Int) : St :=
+  if s.lastJob ≠ some job then { (s.emit [.workingOn job]) with lastJob := some job } else s
+
+def taskRes (s : St) (job : Int) (ia : Bool) (t : TaskIn) : List Act × Bool × Bool × Bool × Bool :=
+  runSafely .task t.id job ia (if (workOn s job).flag then .excAlready else t.out)
+
+def afterTask0 (s : St) (job : Int) (ia : Bool) (t : TaskIn) : St :=
+  { ((workOn s job).emit ([.stampStart .task] ++ (taskRes s job ia t).1 ++ [.stampClear .task])) with
+    flag := (workOn s job).flag || (taskRes s job ia t).2.2.2.2 }
+
+def afterTask (s : St) (job : Int) (ia : Bool) (t : TaskIn) : St :=
+  if !ia && (afterTask0 s job ia t).params.progressBar then (afterTask0 s job ia t).emit [.pb false]
+  else afterTask0 s job ia t
+
+theorem runTasks_cons (s : St) (job : Int) (ia : Bool) (t : TaskIn) (ts : List TaskIn) (res : List (Int × Bool × Nat)) :
+    runTasks s job ia (t :: ts) res =
+      if (taskRes s job ia t).2.2.2.1 then (afterTask0 s job ia t, res, true)
+      else runTasks (afterTask s job ia t) job ia ts
+        (if (taskRes s job ia t).2.2.1 then (job, (taskRes s job ia t).2.1, t.id) :: res else res) := by
+  rfl
+
+theorem workOn_props (s : St) (job : Int) : (workOn s job).flag = s.flag ∧ (workOn s job).params = s.params ∧
+    (workOn s job).executed = s.executed ∧ (workOn s job).initDone = s.initDone ∧
+    obs (workOn s job).acts.reverse = obs s.acts.reverse := by
+  unfold workOn; split <;> simp [obs_cons, noise]
+
+theorem taskRes_eq (s : St) (job : Int) (ia : Bool) (t : TaskIn) :
+    taskRes s job ia t = runSafely .task t.id job ia (if s.flag then .excAlready else t.out) := by
+  simp [taskRes, (workOn_props s job).1]
+
+/-- the task is entered -/
+def enters (s : St) (t : TaskIn) : Bool := !s.flag && t.out != .excAlready
+
+theorem afterTask0_props (s : St) (job : Int) (ia : Bool) (t : TaskIn) :
+    (afterTask0 s job ia t).params = s.params ∧ (afterTask0 s job ia t).executed = s.executed ∧
+    (afterTask0 s job ia t).initDone = s.initDone ∧
+    obs (afterTask0 s job ia t).acts.reverse = obs s.acts.reverse ++ (if enters s t then [.user .task t.id] else []) := by
+  obtain ⟨h1, h2, h3, h4, h5⟩ := workOn_props s job
+  have h := runSafely_obs .task t.id job ia (if s.flag then .excAlready else t.out)
+  simp only [afterTask0, taskRes_eq, emit_params, emit_executed, emit_initDone, emit_acts, h2, h3, h4, true_and]
+  simp only [List.reverse_append, List.reverse_reverse, obs_append, h5, h]
+  cases hf : s.flag <;> cases ho : t.out <;> simp [obs_cons, noise, enters, hf, ho]
+
+theorem afterTask_props (s : St) (job : Int) (ia : Bool) (t : TaskIn) :
+    (afterTask s job ia t).params = s.params ∧ (afterTask s job ia t).executed = s.executed ∧
+    (afterTask s job ia t).initDone = s.initDone ∧
+    obs (afterTask s job ia t).acts.reverse = obs s.acts.reverse ++ (if enters s t then [.user .task t.id] else []) ∧
+    (afterTask s job ia t).flag = (afterTask0 s job ia t).flag := by
+  obtain ⟨h2, h3, h4, h5⟩ := afterTask0_props s job ia t
+  unfold afterTask
+  split <;> simp [h2, h3, h4, h5, obs_cons, noise]
+
+/-- when a task does not end the worker and is not interrupted, it was entered and its result is kept -/
+theorem taskRes_cont (s : St) (job : Int) (ia : Bool) (t : TaskIn) (hsd : (taskRes s job ia t).2.2.2.1 = false)
+    (hni : t.out ≠ .interrupt) : enters s t = true ∧ (taskRes s job ia t).2.2.1 = true := by
+  rw [taskRes_eq] at *
+  cases hf : s.flag <;> cases ho : t.out <;> cases ia <;> simp_all [runSafely, enters]
+
+theorem taskRes_ok (s : St) (job : Int) (ia : Bool) (t : TaskIn) (hf : s.flag = false) (ho : t.out = .ok) :
+    (taskRes s job ia t).2.2.2.1 = false ∧ (taskRes s job ia t).2.2.1 = true ∧ (taskRes s job ia t).2.1 = true ∧
+    enters s t = true ∧ (afterTask s job ia t).flag = false := by
+  rw [(afterTask_props s job ia t).2.2.2.2]
+  simp [afterTask0, taskRes_eq, hf, ho, runSafely, enters, (workOn_props s job).1]
+
+theorem taskRes_enters (s : St) (job : Int) (ia : Bool) (t : TaskIn) (hsd : (taskRes s job ia t).2.2.2.1 = false) :
+    enters s t = true := by
+  rw [taskRes_eq] at *
+  cases hf : s.flag <;> cases ho : t.out <;> cases ia <;> simp_all [runSafely, enters]
+
+def userTask (t : TaskIn) : Act := .user .task t.id
+
+/-- `runTasks`, any outcomes: a prefix of the tasks is entered -/
+theorem runTasks_spec (job : Int) (ia : Bool) : ∀ (ts : List TaskIn) (s : St) (res : List (Int × Bool × Nat)),
+    ∃ n, n ≤ ts.length ∧
+      obs (runTasks s job ia ts res).1.acts.reverse = obs s.acts.reverse ++ (ts.take n).map userTask ∧
+      (runTasks s job ia ts res).1.params = s.params ∧ (runTasks s job ia ts res).1.executed = s.executed ∧
+      (runTasks s job ia ts res).1.initDone = s.initDone ∧
+      (∀ x ∈ (runTasks s job ia ts res).2.1, x ∈ res ∨ x.1 = job) ∧
+      (ts.all (·.out != .interrupt) = true → (runTasks s job ia ts res).2.2 = false →
+        n = ts.length ∧ (runTasks s job ia ts res).2.1.length = res.length + ts.length) := by
+  intro ts
+  induction ts with
+  | nil =>
+    intro s res
+    exact ⟨0, Nat.le_refl _, by simp [runTasks], rfl, rfl, rfl, fun x hx => Or.inl hx, fun _ _ => ⟨rfl, rfl⟩⟩
+  | cons t ts ih =>
+    intro s res
+    rw [runTasks_cons]
+    obtain ⟨a1, a2, a3, a4⟩ := afterTask0_props s job ia t
+    obtain ⟨b1, b2, b3, b4, _⟩ := afterTask_props s job ia t
+    cases hsd : (taskRes s job ia t).2.2.2.1 with
+    | true =>
+      simp only [↓reduceIte]
+      refine ⟨if enters s t then 1 else 0, ?_, ?_, a1, a2, a3, fun x hx => Or.inl hx, ?_⟩
+      · cases enters s t <;> simp
+      · rw [a4]; cases enters s t <;> simp [userTask]
+      · intro _ h; simp at h
+    | false =>
+      obtain ⟨n, hn, c1, c2, c3, c4, c5, c6⟩ := ih (afterTask s job ia t)
+        (if (taskRes s job ia t).2.2.1 then (job, (taskRes s job ia t).2.1, t.id) :: res else res)
+      simp only [Bool.false_eq_true, if_false]
+      have he := taskRes_enters s job ia t hsd
+      refine ⟨n + 1, ?_, ?_, c2.trans b1, c3.trans b2, c4.trans b3, ?_, ?_⟩
+      · simp; omega
+      · rw [c1, b4]
+        simp [userTask, he]
+      · intro x hx
+        rcases c5 x hx with h | h
+        · split at h
+          · rcases List.mem_cons.1 h with h | h
+            · exact Or.inr (by rw [h])
+            · exact Or.inl h
+          · exact Or.inl h
+        · exact Or.inr h
+      · intro hall hsd'
+        simp only [List.all_cons, Bool.and_eq_true, bne_iff_ne, ne_eq] at hall
+        obtain ⟨_, hsend⟩ := taskRes_cont s job ia t hsd hall.1
+        obtain ⟨d1, d2⟩ := c6 hall.2 hsd'
+        simp only [hsend, if_true, List.length_cons] at d2 ⊢
+        simp only [d1, d2, true_and]; omega
+
+/-- `runTasks` when nothing fails -/
+theorem runTasks_ok (job : Int) (ia : Bool) : ∀ (ts : List TaskIn) (s : St) (res : List (Int × Bool × Nat)),
+    s.flag = false → ts.all (·.out == .ok) = true →
+      (runTasks s job ia ts res).2.2 = false ∧
+      (runTasks s job ia ts res).2.1 = (ts.map fun t => (job, true, t.id)).reverse ++ res ∧
+      (runTasks s job ia ts res).1.flag = false ∧
+      obs (runTasks s job ia ts res).1.acts.reverse = obs s.acts.reverse ++ ts.map userTask ∧
+      (runTasks s job ia ts res).1.params = s.params ∧ (runTasks s job ia ts res).1.executed = s.executed ∧
+      (runTasks s job ia ts res).1.initDone = s.initDone := by
+  intro ts
+  induction ts with
+  | nil => intro s res hf _; simp [runTasks, hf]
+  | cons t ts ih =>
+    intro s res hf hall
+    simp only [List.all_cons, Bool.and_eq_true, beq_iff_eq] at hall
+    obtain ⟨h1, h2, h3, h4, h5⟩ := taskRes_ok s job ia t hf hall.1
+    obtain ⟨b1, b2, b3, b4, _⟩ := afterTask_props s job ia t
+    rw [runTasks_cons]
+    simp only [h1, h2, h3, Bool.false_eq_true, if_false, if_true]
+    obtain ⟨c1, c2, c3, c4, c5, c6, c7⟩ := ih (afterTask s job ia t) ((job, true, t.id) :: res) h5 hall.2
+    refine ⟨c1, ?_, c3, ?_, c5.trans b1, c6.trans b2, c7.trans b3⟩
+    · rw [c2]; simp
+    · rw [c4, b4]; simp [h4, userTask]
+
+/-! ## `runChunk` -/
+
+def chunkInit (s : St) (env : Env) : St × Bool := if s.params.hasInit then runInit s env else (s, false)
+
+theorem runChunk_eq (s : St) (env : Env) (job : Int) (ia : Bool) (ts : List TaskIn) :
+    runChunk s env job ia ts =
+      if (chunkInit s env).2 then ((chunkInit s env).1.emit [.taskDone], true) else
+      if (runTasks (chunkInit s env).1 job ia ts []).2.2 then
+        ((runTasks (chunkInit s env).1 job ia ts []).1.emit [.taskDone], true) else
+      ({ ((if (runTasks (chunkInit s env).1 job ia ts []).2.1 ≠ [] then
+            (runTasks (chunkInit s env).1 job ia ts []).1.emit
+              [.addResults (runTasks (chunkInit s env).1 job ia ts []).2.1.reverse]
+          else (runTasks (chunkInit s env).1 job ia ts []).1).emit [.taskDone]) with
+          executed := (if (runTasks (chunkInit s env).1 job ia ts []).2.1 ≠ [] then
+            (runTasks (chunkInit s env).1 job ia ts []).1.emit
+              [.addResults (runTasks (chunkInit s env).1 job ia ts []).2.1.reverse]
+          else (runTasks (chunkInit s env).1 job ia ts []).1).executed +
+            (runTasks (chunkInit s env).1 job ia ts []).2.1.length }, false) := by
+  rfl
+
+theorem chunkInit_spec (s : St) (env : Env) :
+    ∃ b : Bool, obs (chunkInit s env).1.acts.reverse = obs s.acts.reverse ++ (if b then [.user .init 0] else []) ∧
+      (chunkInit s env).1.params = s.params ∧ (chunkInit s env).1.executed = s.executed := by
+  unfold chunkInit
+  split
+  · exact runInit_spec s env
+  · exact ⟨false, by simp⟩
+
+/-- `runChunk`, any outcomes -/
+theorem runChunk_spec (s : St) (env : Env) (job : Int) (ia : Bool) (ts : List TaskIn) :
+    ∃ (bi : Bool) (n : Nat) (res : List (Int × Bool × Nat)), n ≤ ts.length ∧
+      obs (runChunk s env job ia ts).1.acts.reverse =
+        obs s.acts.reverse ++ (if bi then [.user .init 0] else []) ++ (ts.take n).map userTask ++
+          (if res ≠ [] then [.addResults res] else []) ++ [.taskDone] ∧
+      (runChunk s env job ia ts).1.params = s.params ∧
+      (runChunk s env job ia ts).1.executed = s.executed + res.length ∧
+      (∀ x ∈ res, x.1 = job) ∧
+      (ts.all (·.out != .interrupt) = true → (runChunk s env job ia ts).2 = false →
+        n = ts.length ∧ res.length = ts.length) := by
+  obtain ⟨bi, i1, i2, i3⟩ := chunkInit_spec s env
+  obtain ⟨n, hn, t1, t2, t3, _, t5, t6⟩ := runTasks_spec job ia ts (chunkInit s env).1 []
+  rw [runChunk_eq]
+  cases hsd : (chunkInit s env).2 with
+  | true =>
+    refine ⟨bi, 0, [], Nat.zero_le _, ?_, ?_, ?_, ?_, ?_⟩ <;> simp [i1, i2, i3, obs_cons, noise]
+  | false =>
+    simp only [Bool.false_eq_true, if_false]
+    cases hsd' : (runTasks (chunkInit s env).1 job ia ts []).2.2 with
+    | true =>
+      refine ⟨bi, n, [], hn, ?_, ?_, ?_, ?_, ?_⟩ <;> simp [i1, i2, i3, t1, t2, t3, obs_cons, noise]
+    | false =>
+      simp only [Bool.false_eq_true, if_false]
+      refine ⟨bi, n, (runTasks (chunkInit s env).1 job ia ts []).2.1.reverse, hn, ?_, ?_, ?_, ?_, ?_⟩
+      · split <;> simp_all [obs_cons, noise]
+      · split <;> simp [i2, t2]
+      · split <;> simp [i3, t3]
+      · intro x hx
+        rcases t5 x (List.mem_reverse.1 hx) with h | h
+        · simp at h
+        · exact h
+      · intro hall _
+        have := t6 hall hsd'
+        simpa using this
+
+theorem chunkInit_ok (s : St) (env : Env) (hf : s.flag = false) (he : env.initOut = .ok) :
+    (chunkInit s env).2 = false ∧ (chunkInit s env).1.flag = false ∧
+    (chunkInit s env).1.initDone = (s.initDone || s.params.hasInit) ∧
+    (chunkInit s env).1.params = s.params ∧ (chunkInit s env).1.executed = s.executed ∧
+    obs (chunkInit s env).1.acts.reverse =
+      obs s.acts.reverse ++ (if s.params.hasInit && !s.initDone then [.user .init 0] else []) := by
+  unfold chunkInit
+  cases hi : s.params.hasInit
+  · simp [hf]
+  · obtain ⟨h1, h2, h3, h4, h5, h6⟩ := runInit_ok s env hf he
+    simp only [if_true, h1, h2, h3, h4, h5, h6]
+    cases s.initDone <;> simp
+
+/-- `runChunk` when nothing fails -/
+theorem runChunk_ok (s : St) (env : Env) (job : Int) (ia : Bool) (ts : List TaskIn) (hf : s.flag = false)
+    (he : env.initOut = .ok) (hall : ts.all (·.out == .ok) = true) :
+    (runChunk s env job ia ts).2 = false ∧ (runChunk s env job ia ts).1.flag = false ∧
+    (runChunk s env job ia ts).1.initDone = (s.initDone || s.params.hasInit) ∧
+    (runChunk s env job ia ts).1.params = s.params ∧
+    (runChunk s env job ia ts).1.executed = s.executed + ts.length ∧
+    obs (runChunk s env job ia ts).1.acts.reverse =
+      obs s.acts.reverse ++ (if s.params.hasInit && !s.initDone then [.user .init 0] else []) ++ ts.map userTask ++
+        (if ts ≠ [] then [.addResults (ts.map fun t => (job, true, t.id))] else []) ++ [.taskDone] := by
+  obtain ⟨i1, i2, i3, i4, i5, i6⟩ := chunkInit_ok s env hf he
+  obtain ⟨t1, t2, t3, t4, t5, t6, t7⟩ := runTasks_ok job ia ts (chunkInit s env).1 [] i2 hall
+  rw [runChunk_eq]
+  simp only [i1, t1, t2, Bool.false_eq_true, if_false, List.append_nil]
+  cases ts with
+  | nil => simp [t3, t4, t5, t6, t7, i3, i4, i5, i6, obs_cons, noise]
+  | cons t ts => simp [t3, t4, t5, t6, t7, i3, i4, i5, i6, obs_cons, noise]
+
+/-! ## `handle`, `finish` -/
+
+theorem handle_pill_spec (s : St) (env : Env) :
+    ∃ b b' : Bool, obs (handle s env .pill).1.acts.reverse =
+        obs s.acts.reverse ++ [.got, .taskDone] ++ (if b then [.user .exit 0] else []) ++ (if b' then [exitRes] else []) ∧
+      (env.exitOut = .ok → b' = b) ∧ (b = true → s.params.hasExit = true ∧ 0 < s.executed) ∧
+      (handle s env .pill).1.params = s.params ∧ (handle s env .pill).1.executed = s.executed ∧
+      (handle s env .pill).2 = true := by
+  obtain ⟨p1, p2, p3, p4, p5⟩ := forcedPB_spec (s.emit [.got])
+  simp only [handle]
+  cases he : ((forcedPB (s.emit [.got])).emit [.taskDone]).params.hasExit &&
+      decide (0 < ((forcedPB (s.emit [.got])).emit [.taskDone]).executed) with
+  | false =>
+    refine ⟨false, false, ?_⟩
+    simp only [Bool.false_eq_true, if_false]
+    split <;> simp_all [obs_cons, noise]
+  | true =>
+    obtain ⟨b, b', e1, e2, e3, e4⟩ := runExit_spec ((forcedPB (s.emit [.got])).emit [.taskDone]) env
+    refine ⟨b, b', ?_⟩
+    simp only [if_true]
+    simp only [emit_params, emit_executed, p2, p3, Bool.and_eq_true, decide_eq_true_eq] at he
+    split <;> simp_all [obs_cons, noise]
+
+theorem handle_pill_ok (s : St) (env : Env) (hf : s.flag = false) (hx : env.exitOut = .ok) :
+    obs (handle s env .pill).1.acts.reverse = obs s.acts.reverse ++ [.got, .taskDone] ++
+        (if s.params.hasExit && decide (0 < s.executed) then [.user .exit 0, exitRes] else []) ∧
+      (handle s env .pill).1.flag = false ∧
+      (handle s env .pill).1.params = s.params ∧ (handle s env .pill).1.executed = s.executed ∧
+      (handle s env .pill).2 = true ∧ (handle s env .pill).1.initDone = s.initDone := by
+  obtain ⟨p1, p2, p3, p4, p5⟩ := forcedPB_spec (s.emit [.got])
+  simp only [handle]
+  simp only [emit_params, emit_executed, p2, p3]
+  cases he : s.params.hasExit && decide (0 < s.executed) with
+  | false =>
+    simp only [Bool.false_eq_true, if_false]
+    split <;> simp_all [obs_cons, noise]
+  | true =>
+    obtain ⟨e1, e2, e3, e4, e5⟩ := runExit_ok ((forcedPB (s.emit [.got])).emit [.taskDone]) env
+      (by simp [p4, hf]) hx
+    simp only [if_true]
+    split <;> simp_all [obs_cons, noise]
+
+theorem lifespanSt_spec (s : St) (env : Env) :
+    ∃ b b' : Bool, obs (lifespanSt s env).acts.reverse =
+        obs s.acts.reverse ++ (if b then [.user .exit 0] else []) ++ (if b' then [exitRes] else []) ∧
+      (env.exitOut = .ok → b' = b) ∧
+      (lifespanSt s env).params = s.params ∧ (lifespanSt s env).executed = s.executed := by
+  obtain ⟨p1, p2, p3, p4, p5⟩ := forcedPB_spec s
+  unfold lifespanSt
+  split
+  · obtain ⟨b, b', e1, e2, e3, e4⟩ := runExit_spec (forcedPB s) env
+    exact ⟨b, b', by simp_all⟩
+  · exact ⟨false, false, by simp_all⟩
+
+theorem lifespanSt_ok (s : St) (env : Env) (hf : s.flag = false) (hx : env.exitOut = .ok) :
+    obs (lifespanSt s env).acts.reverse =
+        obs s.acts.reverse ++ (if s.params.hasExit then [.user .exit 0, exitRes] else []) ∧
+      (lifespanSt s env).flag = false ∧
+      (lifespanSt s env).params = s.params ∧ (lifespanSt s env).executed = s.executed := by
+  obtain ⟨p1, p2, p3, p4, p5⟩ := forcedPB_spec s
+  unfold lifespanSt
+  rw [p2]
+  split
+  · obtain ⟨e1, e2, e3, e4, e5⟩ := runExit_ok (forcedPB s) env (by simp [p4, hf]) hx
+    simp_all
+  · simp_all
+
+theorem finish_eq (s : St) (env : Env) : finish s env = s.acts.reverse ++ ([.waitAllReceived] ++
+    (if (!(env.excAtEnd || s.flag) && reached s) then [.restartReq] else []) ++ [.dead]) := by
+  simp [finish, reached]
+
+theorem finish_obs (s : St) (env : Env) : obs (finish s env) = obs s.acts.reverse ++ ([.waitAllReceived] ++
+    (if (!(env.excAtEnd || s.flag) && reached s) then [.restartReq] else []) ++ [.dead]) := by
+  rw [finish_eq, obs_append]
+  congr 1
+  split <;> simp [obs_cons, noise]
+
+/-! ## Observations only look at `obs` -/
+
+theorem userActs_obs (l : List Act) : userActs (obs l) = userActs l := by
+  induction l with
+  | nil => rfl
+  | cons a l ih => cases a <;> simp_all [userActs, obs_cons, noise]
+
+theorem taskIds_obs (l : List Act) : taskIds (obs l) = taskIds l := by
+  induction l with
+  | nil => rfl
+  | cons a l ih =>
+    simp only [taskIds] at ih ⊢
+    rw [obs_cons]
+    cases hn : noise a
+    · simp only [Bool.false_eq_true, if_false, List.filterMap_cons, ih]
+    · cases a <;> simp_all [noise]
+
+theorem sentOk_obs (l : List Act) : sentOk (obs l) = sentOk l := by
+  induction l with
+  | nil => rfl
+  | cons a l ih => cases a <;> simp_all [sentOk, obs_cons, noise]
+
+theorem count_obs (a : Act) (h : noise a = false) (l : List Act) : (obs l).count a = l.count a := by
+  induction l with
+  | nil => rfl
+  | cons b l ih =>
+    rw [obs_cons]
+    cases hb : noise b
+    · simp [List.count_cons, ih]
+    · have : (b == a) = false := by
+        apply beq_false_of_ne; intro hba; rw [hba, h] at hb; cases hb
+      simp [List.count_cons, ih, this]
+
+theorem mem_obs (a : Act) (h : noise a = false) (l : List Act) : a ∈ obs l ↔ a ∈ l := by
+  simp [obs, h]
+
+/-! ## Every script: `got`/`taskDone` balance, no `restartReq` before `finish` -/
+
+theorem count_map_userTask (a : Act) (h : ∀ t, userTask t ≠ a) (l : List TaskIn) : (l.map userTask).count a = 0 := by
+  rw [List.count_eq_zero]
+  intro hm
+  obtain ⟨t, _, ht⟩ := List.mem_map.1 hm
+  exact h t ht
+
+/-- what an extension of the trace by one queue entry satisfies, for every script -/
+def Balanced (X : List Act) : Prop := X.count .taskDone = X.count .got ∧ Act.restartReq ∉ X
+
+theorem runChunk_balanced (s : St) (env : Env) (job : Int) (ia : Bool) (ts : List TaskIn) :
+    ∃ X, obs (runChunk s env job ia ts).1.acts.reverse = obs s.acts.reverse ++ X ∧
+      X.count .taskDone = 1 ∧ X.count .got = 0 ∧ Act.restartReq ∉ X := by
+  obtain ⟨bi, n, res, _, h, _⟩ := runChunk_spec s env job ia ts
+  refine ⟨_, by rw [h]; simp only [List.append_assoc]; rfl, ?_, ?_, ?_⟩
+  · simp only [List.count_append, count_map_userTask .taskDone (by intro t; simp [userTask])]
+    by_cases hr : res = [] <;> cases bi <;> simp [hr]
+  · simp only [List.count_append, count_map_userTask .got (by intro t; simp [userTask])]
+    by_cases hr : res = [] <;> cases bi <;> simp [hr]
+  · simp only [List.mem_append, List.mem_map, userTask, not_or]
+    by_cases hr : res = [] <;> cases bi <;> simp [hr]
+
+theorem handle_balanced (s : St) (env : Env) (it : Item) :
+    ∃ X, obs (handle s env it).1.acts.reverse = obs s.acts.reverse ++ X ∧ Balanced X := by
+  cases it with
+  | stopNow => exact ⟨[], by simp [handle, Balanced]⟩
+  | pill =>
+    obtain ⟨b, b', h, _⟩ := handle_pill_spec s env
+    refine ⟨_, by rw [h]; simp only [List.append_assoc]; rfl, ?_⟩
+    cases b <;> cases b' <;> simp [Balanced, exitRes]
+  | pillNL =>
+    obtain ⟨p1, _⟩ := forcedPB_spec (s.emit [.got])
+    exact ⟨[.got, .taskDone], by simp [handle, p1, obs_cons, noise], by simp [Balanced]⟩
+  | newParams q =>
+    cases q with
+    | none => exact ⟨[.got, .taskDone], by simp [handle, obs_cons, noise], by simp [Balanced]⟩
+    | some q => exact ⟨[.got, .taskDone, .got, .taskDone], by simp [handle, obs_cons, noise], by simp [Balanced]⟩
+  | apply t =>
+    cases t with
+    | none => exact ⟨[.got, .taskDone], by simp [handle, obs_cons, noise], by simp [Balanced]⟩
+    | some jt =>
+      obtain ⟨job, t⟩ := jt
+      obtain ⟨X, h, c1, c2, c3⟩ := runChunk_balanced (s.emit [.got, .taskDone, .got]) env job true [t]
+      refine ⟨[.got, .taskDone, .got] ++ X, ?_, ?_⟩
+      · simp only [handle, h]; simp [obs_cons, noise]
+      · simp [Balanced, c1, c2, c3]
+  | chunk job ts =>
+    obtain ⟨X, h, c1, c2, c3⟩ := runChunk_balanced (s.emit [.got]) env job false ts
+    refine ⟨[.got] ++ X, ?_, ?_⟩
+    · simp only [handle, h]; simp [obs_cons, noise]
+    · simp [Balanced, c1, c2, c3]
+
+theorem lifespanSt_balanced (s : St) (env : Env) :
+    ∃ X, obs (lifespanSt s env).acts.reverse = obs s.acts.reverse ++ X ∧ Balanced X := by
+  obtain ⟨b, b', h, _⟩ := lifespanSt_spec s env
+  refine ⟨_, by rw [h]; simp only [List.append_assoc]; rfl, ?_⟩
+  cases b <;> cases b' <;> simp [Balanced, exitRes]
+
+theorem handle_params (s : St) (env : Env) (it : Item) :
+    (handle s env it).1.params = s.params ∨ ∃ q, it = .newParams (some q) ∧ (handle s env it).1.params = q := by
+  cases it with
+  | stopNow => exact Or.inl rfl
+  | pill => obtain ⟨_, _, _, _, _, h, _⟩ := handle_pill_spec s env; exact Or.inl h
+  | pillNL => exact Or.inl (by simp [handle, (forcedPB_spec (s.emit [.got])).2.1])
+  | newParams q =>
+    cases q with
+    | none => exact Or.inl rfl
+    | some q => exact Or.inr ⟨q, rfl, rfl⟩
+  | apply t =>
+    cases t with
+    | none => exact Or.inl rfl
+    | some jt =>
+      obtain ⟨_, _, _, _, _, h, _⟩ := runChunk_spec (s.emit [.got, .taskDone, .got]) env jt.1 true [jt.2]
+      exact Or.inl h
+  | chunk job ts =>
+    obtain ⟨_, _, _, _, _, h, _⟩ := runChunk_spec (s.emit [.got]) env job false ts
+    exact Or.inl h
+
+/-- every run ends in `finish` of a state whose trace extends the start by balanced pieces -/
+theorem loop_balanced (env : Env) (items : List Item) (P : Params → Prop)
+    (hP : ∀ q, Item.newParams (some q) ∈ items → P q) (s : St)
+    (h : ((obs s.acts.reverse).count .taskDone = (obs s.acts.reverse).count .got ∧
+      Act.restartReq ∉ obs s.acts.reverse) ∧ P s.params) :
+    ∃ s', (((obs s'.acts.reverse).count .taskDone = (obs s'.acts.reverse).count .got ∧
+      Act.restartReq ∉ obs s'.acts.reverse) ∧ P s'.params) ∧ loop env s items = finish s' env := by
+  refine loop_inv env _ _ items ?_ ?_ (fun s hs _ => hs) s h
+  · intro s it hit hs _ _
+    obtain ⟨X, hX, hb1, hb2⟩ := handle_balanced s env it
+    have : ((obs (handle s env it).1.acts.reverse).count .taskDone = (obs (handle s env it).1.acts.reverse).count .got ∧
+        Act.restartReq ∉ obs (handle s env it).1.acts.reverse) ∧ P (handle s env it).1.params := by
+      refine ⟨?_, ?_⟩
+      · rw [hX]; simp only [List.count_append, List.mem_append, not_or]; exact ⟨by omega, hs.1.2, hb2⟩
+      · rcases handle_params s env it with h | ⟨q, hq, h⟩
+        · rw [h]; exact hs.2
+        · rw [h]; exact hP q (hq ▸ hit)
+    exact ⟨fun _ => this, fun _ => this⟩
+  · intro s hs _
+    obtain ⟨X, hX, hb1, hb2⟩ := lifespanSt_balanced s env
+    refine ⟨?_, ?_⟩
+    · rw [hX]; simp only [List.count_append, List.mem_append, not_or]; exact ⟨by omega, hs.1.2, hb2⟩
+    · rw [(lifespanSt_spec s env).choose_spec.choose_spec.2.2.1]; exact hs.2
+
+theorem run_balanced (p : Params) (env : Env) (items : List Item) (P : Params → Prop)
+    (hP : ∀ q, Item.newParams (some q) ∈ items → P q) (hp : P p) :
+    ∃ s', (((obs s'.acts.reverse).count .taskDone = (obs s'.acts.reverse).count .got ∧
+      Act.restartReq ∉ obs s'.acts.reverse) ∧ P s'.params) ∧ run p env items = finish s' env :=
+  loop_balanced env items P hP _ ⟨by simp [obs_cons, noise], hp⟩
+
+theorem mem_finish_restart (s : St) (env : Env) (h : Act.restartReq ∉ obs s.acts.reverse) :
+    Act.restartReq ∈ finish s env ↔ (env.excAtEnd = false ∧ s.flag = false) ∧ reached s = true := by
+  rw [← mem_obs _ rfl, finish_obs]
+  simp only [List.mem_append, h, false_or]
+  split <;> simp_all
+
+/-! ## Exit results -/
+
+/-- no chunk or apply task carries the job id reserved for the exit function (real job ids are ≥ 0) -/
+def noExitJob (items : List Item) : Bool :=
+  items.all fun it => match it with
+    | .chunk j _ => j != EXIT_FUNC
+    | .apply (some (j, _)) => j != EXIT_FUNC
+    | _ => true
+
+theorem count_userActs_exit (l : List Act) : (userActs l).count (Kind.exit, 0) = l.count (.user .exit 0) := by
+  induction l with
+  | nil => rfl
+  | cons a l ih =>
+    simp only [userActs] at ih ⊢
+    cases a <;> simp_all [List.count_cons]
+
+def ExitC (X : List Act) : Prop := X.count exitRes = X.count (.user .exit 0)
+
+theorem runChunk_exitc (s : St) (env : Env) (job : Int) (ia : Bool) (ts : List TaskIn) (hj : job ≠ EXIT_FUNC) :
+    ∃ X, obs (runChunk s env job ia ts).1.acts.reverse = obs s.acts.reverse ++ X ∧
+      X.count exitRes = 0 ∧ X.count (.user .exit 0) = 0 := by
+  obtain ⟨bi, n, res, _, h, _, _, hres, _⟩ := runChunk_spec s env job ia ts
+  refine ⟨_, by rw [h]; simp only [List.append_assoc]; rfl, ?_, ?_⟩
+  · simp only [List.count_append, count_map_userTask exitRes (by intro t; simp [userTask, exitRes])]
+    have : res ≠ [(EXIT_FUNC, true, 0)] := by
+      intro he
+      exact hj (hres (EXIT_FUNC, true, 0) (by simp [he])).symm
+    by_cases hr : res = [] <;> cases bi <;> simp [hr, exitRes, this]
+  · simp only [List.count_append, count_map_userTask (.user .exit 0) (by intro t; simp [userTask])]
+    by_cases hr : res = [] <;> cases bi <;> simp [hr]
+
+def itemJobOk (it : Item) : Bool :=
+  match it with
+  | .chunk j _ => j != EXIT_FUNC
+  | .apply (some (j, _)) => j != EXIT_FUNC
+  | _ => true
+
+theorem handle_exitc (s : St) (env : Env) (it : Item) (hx : env.exitOut = .ok) (hj : itemJobOk it = true) :
+    ∃ X, obs (handle s env it).1.acts.reverse = obs s.acts.reverse ++ X ∧ ExitC X := by
+  cases it with
+  | stopNow => exact ⟨[], by simp [handle, ExitC]⟩
+  | pill =>
+    obtain ⟨b, b', h, hb, _⟩ := handle_pill_spec s env
+    refine ⟨_, by rw [h]; simp only [List.append_assoc]; rfl, ?_⟩
+    rw [hb hx]
+    cases b <;> simp [ExitC, exitRes]
+  | pillNL =>
+    obtain ⟨p1, _⟩ := forcedPB_spec (s.emit [.got])
+    exact ⟨[.got, .taskDone], by simp [handle, p1, obs_cons, noise], by simp [ExitC, exitRes]⟩
+  | newParams q =>
+    cases q with
+    | none => exact ⟨[.got, .taskDone], by simp [handle, obs_cons, noise], by simp [ExitC, exitRes]⟩
+    | some q =>
+      exact ⟨[.got, .taskDone, .got, .taskDone], by simp [handle, obs_cons, noise], by simp [ExitC, exitRes]⟩
+  | apply t =>
+    cases t with
+    | none => exact ⟨[.got, .taskDone], by simp [handle, obs_cons, noise], by simp [ExitC, exitRes]⟩
+    | some jt =>
+      obtain ⟨job, t⟩ := jt
+      obtain ⟨X, h, c1, c2⟩ := runChunk_exitc (s.emit [.got, .taskDone, .got]) env job true [t]
+        (by simpa [itemJobOk] using hj)
+      refine ⟨[.got, .taskDone, .got] ++ X, ?_, ?_⟩
+      · simp only [handle, h]; simp [obs_cons, noise]
+      · simp_all [ExitC, exitRes]
+  | chunk job ts =>
+    obtain ⟨X, h, c1, c2⟩ := runChunk_exitc (s.emit [.got]) env job false ts (by simpa [itemJobOk] using hj)
+    refine ⟨[.got] ++ X, ?_, ?_⟩
+    · simp only [handle, h]; simp [obs_cons, noise]
+    · simp_all [ExitC, exitRes]
+
+/-! ## Lifespan bound -/
+
+theorem taskIds_append (a b : List Act) : taskIds (a ++ b) = taskIds a ++ taskIds b := by
+  simp [taskIds]
+
+theorem taskIds_map_userTask (l : List TaskIn) : taskIds (l.map userTask) = l.map (·.id) := by
+  induction l with
+  | nil => rfl
+  | cons t l ih => simp only [taskIds] at ih ⊢; simp [userTask, ih]
+
+theorem taskIds_finish (s : St) (env : Env) : taskIds (finish s env) = taskIds (obs s.acts.reverse) := by
+  rw [← taskIds_obs, finish_obs, taskIds_append]
+  split <;> simp [taskIds]
+
+theorem runChunk_lb (s : St) (env : Env) (job : Int) (ia : Bool) (ts : List TaskIn)
+    (hni : ts.all (·.out != .interrupt) = true) :
+    ∃ k, k ≤ ts.length ∧
+      (taskIds (obs (runChunk s env job ia ts).1.acts.reverse)).length = (taskIds (obs s.acts.reverse)).length + k ∧
+      ((runChunk s env job ia ts).2 = false → (runChunk s env job ia ts).1.executed = s.executed + k) := by
+  obtain ⟨bi, n, res, hn, h, _, he, _, hr⟩ := runChunk_spec s env job ia ts
+  refine ⟨n, hn, ?_, ?_⟩
+  · rw [h]
+    simp only [taskIds_append, taskIds_map_userTask, List.length_append, List.length_map, List.length_take]
+    by_cases hr : res = [] <;> cases bi <;> simp [hr, taskIds] <;> omega
+  · intro hret
+    obtain ⟨h1, h2⟩ := hr hni hret
+    rw [he, h2, h1]
+
+def itemOkLB (c : Nat) (it : Item) : Prop :=
+  (match it with | .chunk _ ts => decide (ts.length ≤ c) | _ => true) = true ∧
+  (match it with
+    | .apply (some (_, t)) => t.out != .interrupt
+    | .chunk _ ts => ts.all (·.out != .interrupt)
+    | _ => true) = true
+
+theorem handle_lb (s : St) (env : Env) (it : Item) (c : Nat) (hc : 1 ≤ c) (hit : itemOkLB c it) :
+    ∃ k, k ≤ c ∧
+      (taskIds (obs (handle s env it).1.acts.reverse)).length = (taskIds (obs s.acts.reverse)).length + k ∧
+      ((handle s env it).2 = false → (handle s env it).1.executed = s.executed + k) := by
+  cases it with
+  | stopNow => exact ⟨0, by simp [handle]⟩
+  | pill =>
+    obtain ⟨b, b', h, _, _, _, he, _⟩ := handle_pill_spec s env
+    refine ⟨0, Nat.zero_le _, ?_, fun _ => he⟩
+    rw [h]; cases b <;> cases b' <;> simp [taskIds, exitRes]
+  | pillNL =>
+    obtain ⟨p1, _, p3, _⟩ := forcedPB_spec (s.emit [.got])
+    exact ⟨0, by simp [handle, p1, p3, obs_cons, noise, taskIds]⟩
+  | newParams q =>
+    cases q with
+    | none => exact ⟨0, by simp [handle, obs_cons, noise, taskIds]⟩
+    | some q => exact ⟨0, by simp [handle, obs_cons, noise, taskIds]⟩
+  | apply t =>
+    cases t with
+    | none => exact ⟨0, by simp [handle, obs_cons, noise, taskIds]⟩
+    | some jt =>
+      obtain ⟨job, t⟩ := jt
+      obtain ⟨k, hk, h1, h2⟩ := runChunk_lb (s.emit [.got, .taskDone, .got]) env job true [t]
+        (by simpa [itemOkLB] using hit.2)
+      refine ⟨k, by simp at hk; omega, ?_, ?_⟩
+      · simp only [handle, h1]; simp [obs_cons, noise, taskIds]
+      · simpa [handle] using h2
+  | chunk job ts =>
+    obtain ⟨k, hk, h1, h2⟩ := runChunk_lb (s.emit [.got]) env job false ts (by simpa [itemOkLB] using hit.2)
+    have : ts.length ≤ c := by simpa [itemOkLB] using hit.1
+    refine ⟨k, by omega, ?_, ?_⟩
+    · simp only [handle, h1]; simp [obs_cons, noise, taskIds]
+    · simpa [handle] using h2
+
+/-! ## Successful calls -/
+
+/-- the acts the properties of successful calls look at -/
+def vis : Act → Bool
+  | .user _ _ | .addResults _ | .restartReq => true
+  | _ => false
+
+def obs2 (l : List Act) : List Act := l.filter vis
+
+@[simp] theorem obs2_nil : obs2 [] = [] := rfl
+@[simp] theorem obs2_append (a b : List Act) : obs2 (a ++ b) = obs2 a ++ obs2 b := by simp [obs2]
+theorem obs2_cons (a : Act) (l : List Act) : obs2 (a :: l) = if vis a then a :: obs2 l else obs2 l := by
+  simp only [obs2, List.filter_cons]
+
+theorem obs2_obs (l : List Act) : obs2 (obs l) = obs2 l := by
+  simp only [obs2, obs, List.filter_filter]
+  congr 1
+  funext a
+  cases a <;> rfl
+
+theorem obs2_map_userTask (l : List TaskIn) : obs2 (l.map userTask) = l.map userTask := by
+  induction l with
+  | nil => rfl
+  | cons t l ih => simp [obs2_cons, vis, userTask, ih]
+
+def itemAllOk (it : Item) : Bool :=
+  match it with
+  | .chunk _ ts => ts.all (·.out == .ok) && !ts.isEmpty
+  | .apply (some (_, t)) => t.out == .ok
+  | .newParams none | .apply none | .stopNow => false
+  | _ => true
+
+theorem allOk_mem {items : List Item} (h : allOk items = true) {it : Item} (hit : it ∈ items) : itemAllOk it = true := by
+  have := List.all_eq_true.1 h it hit
+  cases it <;> first | exact this | skip
+  all_goals rename_i x; cases x <;> first | exact this | skip
+  all_goals rename_i x; exact this
+
+theorem obs2_of_obs {l l' X : List Act} (h : obs l' = obs l ++ X) : obs2 l' = obs2 l ++ obs2 X := by
+  rw [← obs2_obs l', h, obs2_append, obs2_obs]
+
+/-- what one queue entry adds to the visible trace of a successful call: `init? task* results? (exit result)?` -/
+def okExt (hasInit initDone : Bool) (W : List TaskIn) (job : Int) (e : Bool) : List Act :=
+  (if hasInit && !initDone && !W.isEmpty then [.user .init 0] else []) ++ W.map userTask ++
+    (if W.isEmpty then [] else [.addResults (W.map fun t => (job, true, t.id))]) ++
+    (if e then [.user .exit 0, exitRes] else [])
+
+theorem runChunk_ok2 (s : St) (env : Env) (job : Int) (ia : Bool) (ts : List TaskIn) (hf : s.flag = false)
+    (he : env.initOut = .ok) (hall : ts.all (·.out == .ok) = true) (hne : ts ≠ []) :
+    obs2 (runChunk s env job ia ts).1.acts.reverse =
+      obs2 s.acts.reverse ++ okExt s.params.hasInit s.initDone ts job false := by
+  obtain ⟨_, _, _, _, _, h⟩ := runChunk_ok s env job ia ts hf he hall
+  simp only [List.append_assoc] at h
+  rw [obs2_of_obs h]
+  simp only [okExt, obs2_append, obs2_map_userTask]
+  cases ts with
+  | nil => exact absurd rfl hne
+  | cons t ts => cases s.params.hasInit <;> cases s.initDone <;> simp [obs2_cons, vis]
+
+theorem okExt_nil (hi d : Bool) (job : Int) : okExt hi d [] job false = [] := by simp [okExt]
+
+/-- one queue entry of a successful call -/
+theorem handle_ok (s : St) (env : Env) (it : Item) (hf : s.flag = false) (henv : okEnv env)
+    (hit : itemAllOk it = true) :
+    ∃ (W : List TaskIn) (job : Int) (e : Bool),
+      obs2 (handle s env it).1.acts.reverse = obs2 s.acts.reverse ++ okExt s.params.hasInit s.initDone W job e ∧
+      (handle s env it).1.flag = false ∧
+      (handle s env it).1.executed = s.executed + W.length ∧
+      (handle s env it).1.initDone = (s.initDone || (s.params.hasInit && !W.isEmpty)) ∧
+      (e = true → W = []) ∧
+      ((handle s env it).2 = true → e = (s.params.hasExit && decide (0 < s.executed)) ∧ W = []) ∧
+      ((handle s env it).2 = false → e = false) ∧
+      (W ≠ [] → itemJobOk it = true → job ≠ EXIT_FUNC) := by
+  obtain ⟨hi, hx, _⟩ := henv
+  cases it with
+  | stopNow => simp [itemAllOk] at hit
+  | pill =>
+    obtain ⟨h1, h2, h3, h4, h5, h6⟩ := handle_pill_ok s env hf hx
+    simp only [List.append_assoc] at h1
+    refine ⟨[], 0, s.params.hasExit && decide (0 < s.executed), ?_, h2, by simp [h4], by simp [h6], ?_⟩
+    · rw [obs2_of_obs h1]
+      cases s.params.hasExit && decide (0 < s.executed) <;> simp [okExt, obs2_cons, vis, exitRes]
+    · simp [h5]
+  | pillNL =>
+    obtain ⟨p1, p2, p3, p4, p5⟩ := forcedPB_spec (s.emit [.got])
+    refine ⟨[], 0, false, ?_⟩
+    have : obs (handle s env .pillNL).1.acts.reverse = obs s.acts.reverse ++ [.got, .taskDone] := by
+      simp [handle, p1, obs_cons, noise]
+    rw [obs2_of_obs this, okExt_nil]
+    simp [handle, p3, p4, p5, hf, obs2_cons, vis]
+  | newParams q =>
+    cases q with
+    | none => simp [itemAllOk] at hit
+    | some q =>
+      refine ⟨[], 0, false, ?_⟩
+      have : obs (handle s env (.newParams (some q))).1.acts.reverse =
+          obs s.acts.reverse ++ [.got, .taskDone, .got, .taskDone] := by
+        simp [handle, obs_cons, noise]
+      rw [obs2_of_obs this, okExt_nil]
+      simp [handle, hf, obs2_cons, vis]
+  | apply t =>
+    cases t with
+    | none => simp [itemAllOk] at hit
+    | some jt =>
+      obtain ⟨job, t⟩ := jt
+      have hall : [t].all (·.out == .ok) = true := by simpa [itemAllOk] using hit
+      have hf' : (s.emit [.got, .taskDone, .got]).flag = false := hf
+      obtain ⟨c1, c2, c3, c4, c5, _⟩ := runChunk_ok (s.emit [.got, .taskDone, .got]) env job true [t] hf' hi hall
+      have c6 := runChunk_ok2 (s.emit [.got, .taskDone, .got]) env job true [t] hf' hi hall (by simp)
+      refine ⟨[t], job, false, ?_, c2, by simpa [handle] using c5, by simpa [handle] using c3, by simp, ?_, by simp, ?_⟩
+      · simp only [handle, c6]; simp [obs2_cons, vis]
+      · simp [handle, c1]
+      · intro _ h; simpa [itemJobOk] using h
+  | chunk job ts =>
+    have hall : ts.all (·.out == .ok) = true ∧ ts ≠ [] := by
+      simpa [itemAllOk, List.isEmpty_iff] using hit
+    have hf' : (s.emit [.got]).flag = false := hf
+    obtain ⟨c1, c2, c3, c4, c5, _⟩ := runChunk_ok (s.emit [.got]) env job false ts hf' hi hall.1
+    have c6 := runChunk_ok2 (s.emit [.got]) env job false ts hf' hi hall.1 hall.2
+    refine ⟨ts, job, false, ?_, c2, by simpa [handle] using c5, ?_, by simp, ?_, by simp, ?_⟩
+    · simp only [handle, c6]; simp [obs2_cons, vis]
+    · have : ts.isEmpty = false := by
+        cases ts with
+        | nil => exact absurd rfl hall.2
+        | cons _ _ => rfl
+      simp [handle, c3, this]
+    · simp [handle, c1]
+    · intro _ h; simpa [itemJobOk] using h
+
+theorem lifespanSt_ok2 (s : St) (env : Env) (hf : s.flag = false) (hx : env.exitOut = .ok) :
+    obs2 (lifespanSt s env).acts.reverse =
+      obs2 s.acts.reverse ++ okExt s.params.hasInit s.initDone [] 0 s.params.hasExit := by
+  obtain ⟨h, _⟩ := lifespanSt_ok s env hf hx
+  rw [obs2_of_obs h]
+  cases s.params.hasExit <;> simp [okExt, obs2_cons, vis, exitRes]
+
+theorem userActs_obs2 (l : List Act) : userActs (obs2 l) = userActs l := by
+  induction l with
+  | nil => rfl
+  | cons a l ih => cases a <;> simp_all [userActs, obs2_cons, vis]
+
+theorem taskIds_obs2 (l : List Act) : taskIds (obs2 l) = taskIds l := by
+  induction l with
+  | nil => rfl
+  | cons a l ih =>
+    simp only [taskIds] at ih ⊢
+    rw [obs2_cons]
+    cases hv : vis a
+    · cases a <;> simp_all [vis]
+    · simp only [if_true, List.filterMap_cons, ih]
+
+theorem sentOk_obs2 (l : List Act) : sentOk (obs2 l) = sentOk l := by
+  induction l with
+  | nil => rfl
+  | cons a l ih => cases a <;> simp_all [sentOk, obs2_cons, vis]
+
+theorem userActs_append (a b : List Act) : userActs (a ++ b) = userActs a ++ userActs b := by
+  simp [userActs]
+
+theorem userActs_map_userTask (l : List TaskIn) :
+    userActs (l.map userTask) = l.map (fun t => (Kind.task, t.id)) := by
+  induction l with
+  | nil => rfl
+  | cons t l ih => simp only [userActs] at ih ⊢; simp [userTask, ih]
+
+theorem userActs_okExt (hi d : Bool) (W : List TaskIn) (job : Int) (e : Bool) :
+    userActs (okExt hi d W job e) = (if hi && !d && !W.isEmpty then [(Kind.init, 0)] else []) ++
+      W.map (fun t => (Kind.task, t.id)) ++ (if e then [(Kind.exit, 0)] else []) := by
+  simp only [okExt, userActs_append, userActs_map_userTask]
+  cases (hi && !d && !W.isEmpty) <;> cases W.isEmpty <;> cases e <;> simp [userActs, exitRes]
+
+theorem taskIds_okExt (hi d : Bool) (W : List TaskIn) (job : Int) (e : Bool) :
+    taskIds (okExt hi d W job e) = W.map (·.id) := by
+  simp only [okExt, taskIds_append, taskIds_map_userTask]
+  cases (hi && !d && !W.isEmpty) <;> cases W.isEmpty <;> cases e <;> simp [taskIds, exitRes]
+
+def taskU (t : Nat) : Kind × Nat := (Kind.task, t)
+
+/-- loop invariant of a successful call -/
+structure InvU (p : Params) (P : Params → Prop) (s : St) : Prop where
+  flag : s.flag = false
+  par : P s.params
+  hi : s.params.hasInit = p.hasInit
+  hx : s.params.hasExit = p.hasExit
+  us : userActs (obs2 s.acts.reverse) =
+    (if s.initDone then [(Kind.init, 0)] else []) ++ (taskIds (obs2 s.acts.reverse)).map taskU
+  len : (taskIds (obs2 s.acts.reverse)).length = s.executed
+  idone : s.initDone = (s.params.hasInit && decide (0 < s.executed))
+
+theorem ext_core (p : Params) (P : Params → Prop) (s : St) (inv : InvU p P s) (V' : List Act) (W : List TaskIn)
+    (job : Int) (e : Bool) (hV : V' = obs2 s.acts.reverse ++ okExt s.params.hasInit s.initDone W job e) :
+    userActs V' = (if (s.initDone || (s.params.hasInit && !W.isEmpty)) then [(Kind.init, 0)] else []) ++
+        (taskIds V').map taskU ++ (if e then [(Kind.exit, 0)] else []) ∧
+      taskIds V' = taskIds (obs2 s.acts.reverse) ++ W.map (·.id) ∧
+      (s.initDone || (s.params.hasInit && !W.isEmpty)) = (s.params.hasInit && decide (0 < s.executed + W.length)) := by
+  subst hV
+  have hus := inv.us
+  have hlen := inv.len
+  have hid := inv.idone
+  rw [userActs_append, userActs_okExt, taskIds_append, taskIds_okExt, hus]
+  refine ⟨?_, rfl, ?_⟩
+  · cases hd : s.initDone
+    · cases hh : s.params.hasInit
+      · simp [taskU]
+      · have h0 : s.executed = 0 := by
+          rw [hd, hh] at hid; simpa using hid.symm
+        have : taskIds (obs2 s.acts.reverse) = [] := List.eq_nil_of_length_eq_zero (hlen.trans h0)
+        simp [this, taskU]
+    · simp [taskU]
+  · rw [hid]
+    cases s.params.hasInit <;> cases W <;> simp
+    omega
+
+/-- what the trace of a successful call looks like at the end -/
+def FinU (p : Params) (Z X : Prop) (s : St) : Prop :=
+  ∃ (i e : Bool) (ids : List Nat),
+    userActs (obs2 s.acts.reverse) =
+      (if i then [(Kind.init, 0)] else []) ++ ids.map taskU ++ (if e then [(Kind.exit, 0)] else []) ∧
+    taskIds (obs2 s.acts.reverse) = ids ∧ (i = true ↔ p.hasInit = true ∧ ids ≠ []) ∧
+    (e = true → p.hasExit = true ∧ (Z → ids ≠ [])) ∧ (X → p.hasExit = true → ids ≠ [] → e = true)
+
+theorem handle_invU (p : Params) (P : Params → Prop) (Z X : Prop) (s : St) (env : Env) (it : Item)
+    (inv : InvU p P s) (henv : okEnv env) (hit : itemAllOk it = true)
+    (hq : ∀ q, it = .newParams (some q) → P q ∧ q.hasInit = p.hasInit ∧ q.hasExit = p.hasExit) :
+    ((handle s env it).2 = true → FinU p Z X (handle s env it).1) ∧
+    ((handle s env it).2 = false → InvU p P (handle s env it).1) := by
+  obtain ⟨W, job, e, h1, h2, h3, h4, h5, h6, h7, _⟩ := handle_ok s env it inv.flag henv hit
+  obtain ⟨c1, c2, c3⟩ := ext_core p P s inv _ W job e h1
+  have hlen : (taskIds (obs2 (handle s env it).1.acts.reverse)).length = s.executed + W.length := by
+    rw [c2, List.length_append, List.length_map, inv.len]
+  constructor
+  · intro hret
+    obtain ⟨he, hW⟩ := h6 hret
+    refine ⟨_, e, _, c1, rfl, ?_, ?_, ?_⟩
+    · rw [c3, ← List.length_pos_iff, hlen, inv.hi]; simp
+    · intro he'
+      rw [he', eq_comm, Bool.and_eq_true, decide_eq_true_eq, inv.hx] at he
+      exact ⟨he.1, fun _ => by rw [← List.length_pos_iff, hlen]; omega⟩
+    · intro _ hx hne
+      rw [he, inv.hx, hx]
+      rw [← List.length_pos_iff, hlen, hW] at hne
+      simpa using hne
+  · intro hret
+    have he := h7 hret
+    have hpar : P (handle s env it).1.params ∧ (handle s env it).1.params.hasInit = p.hasInit ∧
+        (handle s env it).1.params.hasExit = p.hasExit := by
+      rcases handle_params s env it with h | ⟨q, hq', h⟩
+      · rw [h]; exact ⟨inv.par, inv.hi, inv.hx⟩
+      · rw [h]; exact hq q hq'
+    refine ⟨h2, hpar.1, hpar.2.1, hpar.2.2, ?_, by rw [hlen, h3], ?_⟩
+    · rw [c1, he, h4]; simp
+    · rw [h4, h3, hpar.2.1, ← inv.hi]; exact c3
+
+theorem reached_invU (p : Params) (P : Params → Prop) (Z X : Prop) (s : St) (env : Env)
+    (inv : InvU p P s) (henv : okEnv env) (hr : reached s = true) (hZ : Z → ∀ q, P q → q.lifespan ≠ some 0) :
+    FinU p Z X (lifespanSt s env) := by
+  have h1 := lifespanSt_ok2 s env inv.flag henv.2.1
+  obtain ⟨c1, c2, c3⟩ := ext_core p P s inv _ [] 0 s.params.hasExit h1
+  have hlen : (taskIds (obs2 (lifespanSt s env).acts.reverse)).length = s.executed := by
+    rw [c2, List.length_append, List.length_map, inv.len]; rfl
+  refine ⟨_, s.params.hasExit, _, c1, rfl, ?_, ?_, ?_⟩
+  · rw [c3, ← List.length_pos_iff, hlen, inv.hi]; simp
+  · intro he
+    refine ⟨inv.hx ▸ he, fun hz => ?_⟩
+    have hne := hZ hz _ inv.par
+    rw [← List.length_pos_iff, hlen]
+    unfold reached at hr
+    split at hr
+    · rename_i l hl
+      have : l ≠ 0 := by intro h0; rw [h0] at hl; exact hne hl
+      have : l ≤ s.executed := by simpa using hr
+      omega
+    · cases hr
+  · intro _ hx _
+    rw [inv.hx, hx]
+
+theorem nil_invU (p : Params) (P : Params → Prop) (Z : Prop) (s : St) (inv : InvU p P s) : FinU p Z False s := by
+  refine ⟨s.initDone, false, _, by rw [inv.us]; simp, rfl, ?_, by simp, by simp⟩
+  rw [inv.idone, ← List.length_pos_iff, inv.len, inv.hi]; simp
+
+theorem init_invU (p : Params) (P : Params → Prop) (hp : P p) :
+    InvU p P { params := p, acts := [.resetRecv, .alive] } :=
+  ⟨rfl, hp, rfl, rfl, by simp [obs2_cons, vis, userActs, taskIds], by simp [obs2_cons, vis, taskIds], by simp⟩
+
+theorem userActs_finish (s : St) (env : Env) : userActs (finish s env) = userActs (obs2 s.acts.reverse) := by
+  rw [finish_eq, userActs_append, userActs_obs2]
+  split <;> simp [userActs]
+
+theorem taskIds_finish2 (s : St) (env : Env) : taskIds (finish s env) = taskIds (obs2 s.acts.reverse) := by
+  rw [taskIds_finish, taskIds_obs, taskIds_obs2]
+
+/-- the lifespan is never 0 (`worker_lifespan` is validated to be a positive integer) -/
+def posLifespan (p : Params) (items : List Item) : Bool :=
+  p.lifespan != some 0 &&
+    items.all fun it => match it with | .newParams (some q) => q.lifespan != some 0 | _ => true
+
+theorem sameHooks_mem {p : Params} {items : List Item} (hh : sameHooks p items = true) {q : Params}
+    (hq : Item.newParams (some q) ∈ items) : q.hasInit = p.hasInit ∧ q.hasExit = p.hasExit := by
+  have := List.all_eq_true.1 hh _ hq
+  simp only [Bool.and_eq_true, beq_iff_eq] at this
+  exact ⟨this.1.1, this.1.2⟩
+
+theorem step_invU (p : Params) (P : Params → Prop) (Z X : Prop) (env : Env) (items : List Item)
+    (hok : allOk items = true) (henv : okEnv env) (hh : sameHooks p items = true)
+    (hP : ∀ q, Item.newParams (some q) ∈ items → P q) :
+    ∀ s it, it ∈ items → InvU p P s → reached s = false → s.flag = false →
+      ((handle s env it).2 = true → FinU p Z X (handle s env it).1) ∧
+      ((handle s env it).2 = false → InvU p P (handle s env it).1) := by
+  intro s it hit inv _ _
+  refine handle_invU p P Z X s env it inv henv (allOk_mem hok hit) ?_
+  intro q hq
+  subst hq
+  exact ⟨hP q hit, sameHooks_mem hh hit⟩
+
+theorem run_finU (p : Params) (P : Params → Prop) (Z : Prop) (env : Env) (items : List Item)
+    (hok : allOk items = true) (henv : okEnv env) (hh : sameHooks p items = true)
+    (hP : ∀ q, Item.newParams (some q) ∈ items → P q) (hp : P p) (hZ : Z → ∀ q, P q → q.lifespan ≠ some 0) :
+    ∃ s', FinU p Z False s' ∧ run p env items = finish s' env :=
+  loop_inv env (InvU p P) (FinU p Z False) items (step_invU p P Z False env items hok henv hh hP)
+    (fun s inv hr => reached_invU p P Z False s env inv henv hr hZ) (fun s inv _ => nil_invU p P Z s inv) _
+    (init_invU p P hp)
+
+theorem posLifespan_mem {p : Params} {items : List Item} (h : posLifespan p items = true) :
+    p.lifespan ≠ some 0 ∧ ∀ q, Item.newParams (some q) ∈ items → q.lifespan ≠ some 0 := by
+  simp only [posLifespan, Bool.and_eq_true, bne_iff_ne, ne_eq] at h
+  refine ⟨h.1, fun q hq => ?_⟩
+  have := List.all_eq_true.1 h.2 _ hq
+  simpa using this
+
+/-! ## Results shipped once -/
+
+theorem sentOk_append (a b : List Act) : sentOk (a ++ b) = sentOk a ++ sentOk b := by
+  simp [sentOk]
+
+theorem sentOk_map_userTask (l : List TaskIn) : sentOk (l.map userTask) = [] := by
+  induction l with
+  | nil => rfl
+  | cons t l ih => simp only [sentOk] at ih ⊢; simp [userTask]
+
+theorem filterMap_results (job : Int) (hj : job ≠ EXIT_FUNC) (W : List TaskIn) :
+    (W.map fun t => (job, true, t.id)).filterMap
+      (fun (x : Int × Bool × Nat) => if x.2.1 && x.1 ≠ EXIT_FUNC then some x.2.2 else none) = W.map (·.id) := by
+  induction W with
+  | nil => rfl
+  | cons t W ih => simp only [List.map_cons, List.filterMap_cons, ih]; simp [hj]
+
+theorem sentOk_okExt (hi d : Bool) (W : List TaskIn) (job : Int) (e : Bool) (hj : W ≠ [] → job ≠ EXIT_FUNC) :
+    sentOk (okExt hi d W job e) = W.map (·.id) := by
+  simp only [okExt, sentOk_append, sentOk_map_userTask]
+  cases W with
+  | nil => cases e <;> simp [sentOk, exitRes]
+  | cons t W =>
+    have := filterMap_results job (hj (by simp)) (t :: W)
+    cases (hi && !d) <;> cases e <;> simp_all [sentOk, exitRes]
+
+theorem sentOk_finish (s : St) (env : Env) : sentOk (finish s env) = sentOk (obs2 s.acts.reverse) := by
+  rw [finish_eq, sentOk_append, sentOk_obs2]
+  split <;> simp [sentOk]
+
+theorem noExitJob_mem {items : List Item} (h : noExitJob items = true) {it : Item} (hit : it ∈ items) :
+    itemJobOk it = true := List.all_eq_true.1 h it hit
+
+/-! ## Restart request -/
+
+theorem not_mem_okExt (hi d : Bool) (W : List TaskIn) (job : Int) (e : Bool) : Act.restartReq ∉ okExt hi d W job e := by
+  simp only [okExt, List.mem_append, List.mem_map, userTask, not_or]
+  cases (hi && !d && !W.isEmpty) <;> cases W.isEmpty <;> cases e <;> simp [exitRes]
+
+theorem mem_obs2 (a : Act) (h : vis a = true) (l : List Act) : a ∈ obs2 l ↔ a ∈ l := by
+  simp [obs2, h]
+
+/-! ## The theorems used by `Props/C11.lean` and `Props/C12.lean` -/
+
 theorem shape (p : Params) (env : Env) (items : List Item) (hok : allOk items = true) (henv : okEnv env)
-    (hh : sameHooks p items = true) : Shape (userActs (run p env items)) := by
-  sorry
+    (hh : sameHooks p items = true) (hpos : posLifespan p items = true) : Shape (userActs (run p env items)) := by
+  obtain ⟨hp, hq⟩ := posLifespan_mem hpos
+  obtain ⟨s', ⟨i, e, ids, h1, _, h3, h4, _⟩, hr⟩ := run_finU p (fun q => q.lifespan ≠ some 0) True env items hok henv hh
+    hq hp (fun _ _ h => h)
+  rw [hr, userActs_finish, h1]
+  by_cases hids : ids = []
+  · left
+    have hi : i = false := by
+      cases i
+      · rfl
+      · exact absurd hids (h3.1 rfl).2
+    have he : e = false := by
+      cases e
+      · rfl
+      · exact absurd hids ((h4 rfl).2 trivial)
+    simp [hi, he, hids]
+  · right
+    exact ⟨i, e, ids, hids, rfl⟩
 
 theorem init_iff_work (p : Params) (env : Env) (items : List Item) (hok : allOk items = true) (henv : okEnv env)
     (hh : sameHooks p items = true) :
     ((Kind.init, 0) ∈ userActs (run p env items) ↔ p.hasInit = true ∧ taskIds (run p env items) ≠ []) := by
-  sorry
+  obtain ⟨s', ⟨i, e, ids, h1, h2, h3, _, _⟩, hr⟩ := run_finU p (fun _ => True) False env items hok henv hh
+    (fun _ _ => trivial) trivial (fun h => h.elim)
+  rw [hr, userActs_finish, taskIds_finish2, h1, h2, ← h3]
+  cases i <;> cases e <;> simp [taskU]
 
 theorem exit_iff_work_at_shutdown (p : Params) (env : Env) (pre : List Item) (hok : allOk pre = true) (henv : okEnv env)
-    (hh : sameHooks p pre = true) :
+    (hh : sameHooks p pre = true) (hpos : posLifespan p pre = true) :
     ((Kind.exit, 0) ∈ userActs (run p env (pre ++ [.pill])) ↔
       p.hasExit = true ∧ taskIds (run p env (pre ++ [.pill])) ≠ []) := by
-  sorry
+  obtain ⟨hp, hq⟩ := posLifespan_mem hpos
+  have hZ : True → ∀ q : Params, q.lifespan ≠ some 0 → q.lifespan ≠ some 0 := fun _ _ h => h
+  have key : ∃ s', FinU p True True s' ∧ run p env (pre ++ [.pill]) = finish s' env := by
+    obtain ⟨s', h⟩ := loop_prefix env (InvU p fun q => q.lifespan ≠ some 0) (FinU p True True) pre [.pill]
+      (step_invU p _ True True env pre hok henv hh hq)
+      (fun s inv hr => reached_invU p _ True True s env inv henv hr hZ)
+      (fun s inv _ hf => by rw [inv.flag] at hf; cases hf) _ (init_invU p _ hp)
+    rcases h with h | ⟨inv, h⟩
+    · exact ⟨s', h⟩
+    · unfold run
+      rw [h]
+      simp only [loop]
+      cases hr : reached s' with
+      | true => exact ⟨_, reached_invU p _ True True s' env inv henv hr hZ, by simp [lifespanEnd_eq]⟩
+      | false =>
+        have hret : (handle s' env .pill).2 = true := (handle_pill_ok s' env inv.flag henv.2.1).2.2.2.2.1
+        refine ⟨_, (handle_invU p _ True True s' env .pill inv henv rfl (by intro q hq; cases hq)).1 hret, ?_⟩
+        simp [inv.flag, hret]
+  obtain ⟨s', ⟨i, e, ids, h1, h2, _, h4, h5⟩, hr⟩ := key
+  rw [hr, userActs_finish, taskIds_finish2, h1, h2]
+  have : e = true ↔ p.hasExit = true ∧ ids ≠ [] :=
+    ⟨fun he => ⟨(h4 he).1, (h4 he).2 trivial⟩, fun h => h5 trivial h.1 h.2⟩
+  rw [← this]
+  cases i <;> cases e <;> simp [taskU]
 
-theorem exit_results_conserved (p : Params) (env : Env) (items : List Item) (henv : env.exitOut = .ok) :
+theorem exit_results_conserved (p : Params) (env : Env) (items : List Item) (henv : env.exitOut = .ok)
+    (hj : noExitJob items = true) :
     exitResults (run p env items) = (userActs (run p env items)).count (Kind.exit, 0) := by
-  sorry
+  have key : ∃ s', ExitC (obs s'.acts.reverse) ∧ run p env items = finish s' env := by
+    refine loop_inv env (fun s => ExitC (obs s.acts.reverse)) _ items ?_ ?_ (fun s hs _ => hs) _ ?_
+    · intro s it hit hs _ _
+      obtain ⟨X, hX, hc⟩ := handle_exitc s env it henv (List.all_eq_true.1 hj it hit)
+      have : ExitC (obs (handle s env it).1.acts.reverse) := by
+        rw [hX]; simp only [ExitC, List.count_append] at *; omega
+      exact ⟨fun _ => this, fun _ => this⟩
+    · intro s hs _
+      obtain ⟨b, b', h, hb, _⟩ := lifespanSt_spec s env
+      rw [h, hb henv]
+      simp only [ExitC, List.count_append] at *
+      cases b <;> simp_all [exitRes]
+    · simp [ExitC, obs_cons, noise, exitRes]
+  obtain ⟨s', hs, hr⟩ := key
+  rw [count_userActs_exit, exitResults, ← count_obs (.addResults [(EXIT_FUNC, true, 0)]) rfl (run p env items),
+    ← count_obs (.user .exit 0) rfl (run p env items), hr, finish_obs]
+  simp only [ExitC, exitRes] at hs
+  simp only [List.count_append, hs]
+  split <;> simp
 
-theorem results_sent_once (p : Params) (env : Env) (items : List Item) (hok : allOk items = true) (henv : okEnv env) :
+theorem results_sent_once (p : Params) (env : Env) (items : List Item) (hok : allOk items = true) (henv : okEnv env)
+    (hj : noExitJob items = true) :
     sentOk (run p env items) = taskIds (run p env items) := by
-  sorry
+  have key : ∃ s', (s'.flag = false ∧ sentOk (obs2 s'.acts.reverse) = taskIds (obs2 s'.acts.reverse)) ∧
+      run p env items = finish s' env := by
+    refine loop_inv env (fun s => s.flag = false ∧ sentOk (obs2 s.acts.reverse) = taskIds (obs2 s.acts.reverse))
+      _ items ?_ ?_ (fun s hs _ => hs) _ ?_
+    · intro s it hit ⟨hf, hs⟩ _ _
+      obtain ⟨W, job, e, h1, h2, _, _, _, _, _, h8⟩ := handle_ok s env it hf henv (allOk_mem hok hit)
+      have : (handle s env it).1.flag = false ∧ sentOk (obs2 (handle s env it).1.acts.reverse) =
+          taskIds (obs2 (handle s env it).1.acts.reverse) := by
+        refine ⟨h2, ?_⟩
+        rw [h1, sentOk_append, taskIds_append, taskIds_okExt, hs,
+          sentOk_okExt _ _ _ _ _ (fun hW => h8 hW (noExitJob_mem hj hit))]
+      exact ⟨fun _ => this, fun _ => this⟩
+    · intro s ⟨hf, hs⟩ _
+      refine ⟨(lifespanSt_ok s env hf henv.2.1).2.1, ?_⟩
+      rw [lifespanSt_ok2 s env hf henv.2.1, sentOk_append, taskIds_append, taskIds_okExt, hs,
+        sentOk_okExt _ _ _ _ _ (fun h => absurd rfl h)]
+    · exact ⟨rfl, by simp [obs2_cons, vis, sentOk, taskIds]⟩
+  obtain ⟨s', ⟨_, hs⟩, hr⟩ := key
+  rw [hr, sentOk_finish, taskIds_finish2, hs]
 
 theorem task_done_balance (p : Params) (env : Env) (items : List Item) :
     (run p env items).count .taskDone = (run p env items).count .got := by
-  sorry
+  obtain ⟨s', ⟨⟨h, _⟩, _⟩, hr⟩ := run_balanced p env items (fun _ => True) (fun _ _ => trivial) trivial
+  rw [← count_obs .taskDone rfl (run p env items), ← count_obs .got rfl (run p env items), hr, finish_obs]
+  simp only [List.count_append, h]
+  split <;> simp
 
 theorem dead_last (p : Params) (env : Env) (items : List Item) :
     ∃ pre, run p env items = pre ++ [.waitAllReceived, .dead] ∨ run p env items = pre ++ [.waitAllReceived, .restartReq, .dead] := by
-  sorry
+  obtain ⟨s', _, hr⟩ := run_balanced p env items (fun _ => True) (fun _ _ => trivial) trivial
+  refine ⟨s'.acts.reverse, ?_⟩
+  rw [hr, finish_eq]
+  split
+  · exact Or.inr rfl
+  · exact Or.inl rfl
 
 theorem lifespan_bound (p : Params) (env : Env) (items : List Item) (L c : Nat) (hL : p.lifespan = some L) (hc : 1 ≤ c)
     (hsz : chunkSizeLe c items = true) (hl : sameLifespan p items = true) (hni : noInterrupt items = true) :
     (taskIds (run p env items)).length ≤ L + c - 1 := by
-  sorry
+  have key : ∃ s', (taskIds (obs s'.acts.reverse)).length ≤ L + c - 1 ∧ run p env items = finish s' env := by
+    refine loop_inv env (fun s => s.params.lifespan = some L ∧
+      (taskIds (obs s.acts.reverse)).length ≤ s.executed ∧ (taskIds (obs s.acts.reverse)).length ≤ L + c - 1)
+      _ items ?_ ?_ (fun s hs _ => hs.2.2) _ ?_
+    · intro s it hit ⟨hs1, hs2, hs3⟩ hr _
+      have hok : itemOkLB c it := ⟨List.all_eq_true.1 hsz it hit, List.all_eq_true.1 hni it hit⟩
+      obtain ⟨k, hk, h1, h2⟩ := handle_lb s env it c hc hok
+      have hlt : s.executed < L := by simpa [reached, hs1] using hr
+      refine ⟨fun _ => by rw [h1]; omega, fun hret => ⟨?_, by rw [h1, h2 hret]; omega, by rw [h1]; omega⟩⟩
+      rcases handle_params s env it with h | ⟨q, hq, h⟩
+      · rw [h]; exact hs1
+      · rw [h]
+        have := List.all_eq_true.1 hl _ hit
+        rw [hq] at this
+        simpa [hL] using this
+    · intro s ⟨_, _, hs3⟩ _
+      obtain ⟨b, b', h, _⟩ := lifespanSt_spec s env
+      rw [h]
+      cases b <;> cases b' <;> simpa [taskIds_append, taskIds, exitRes] using hs3
+    · exact ⟨hL, by simp [obs_cons, noise, taskIds]⟩
+  obtain ⟨s', hs, hr⟩ := key
+  rw [hr, taskIds_finish]
+  exact hs
 
 theorem restart_iff (p : Params) (env : Env) (items : List Item) (L : Nat) (hL : p.lifespan = some L)
     (hok : allOk items = true) (henv : okEnv env) (hl : sameLifespan p items = true) :
     (Act.restartReq ∈ run p env items ↔ L ≤ (taskIds (run p env items)).length) := by
-  sorry
+  have key : ∃ s', (s'.flag = false ∧ s'.params.lifespan = some L ∧
+      (taskIds (obs2 s'.acts.reverse)).length = s'.executed ∧ Act.restartReq ∉ obs2 s'.acts.reverse) ∧
+      run p env items = finish s' env := by
+    refine loop_inv env (fun s => s.flag = false ∧ s.params.lifespan = some L ∧
+      (taskIds (obs2 s.acts.reverse)).length = s.executed ∧ Act.restartReq ∉ obs2 s.acts.reverse)
+      _ items ?_ ?_ (fun s hs _ => hs) _ ?_
+    · intro s it hit ⟨hf, hs1, hs2, hs3⟩ _ _
+      obtain ⟨W, job, e, h1, h2, h3, _⟩ := handle_ok s env it hf henv (allOk_mem hok hit)
+      have : (handle s env it).1.flag = false ∧ (handle s env it).1.params.lifespan = some L ∧
+          (taskIds (obs2 (handle s env it).1.acts.reverse)).length = (handle s env it).1.executed ∧
+          Act.restartReq ∉ obs2 (handle s env it).1.acts.reverse := by
+        refine ⟨h2, ?_, ?_, ?_⟩
+        · rcases handle_params s env it with h | ⟨q, hq, h⟩
+          · rw [h]; exact hs1
+          · rw [h]
+            have := List.all_eq_true.1 hl _ hit
+            rw [hq] at this
+            simpa [hL] using this
+        · rw [h1, taskIds_append, taskIds_okExt, List.length_append, List.length_map, hs2, h3]
+        · rw [h1, List.mem_append, not_or]; exact ⟨hs3, not_mem_okExt _ _ _ _ _⟩
+      exact ⟨fun _ => this, fun _ => this⟩
+    · intro s ⟨hf, hs1, hs2, hs3⟩ _
+      obtain ⟨_, l2, l3, l4⟩ := lifespanSt_ok s env hf henv.2.1
+      refine ⟨l2, by rw [l3]; exact hs1, ?_, ?_⟩
+      · rw [lifespanSt_ok2 s env hf henv.2.1, taskIds_append, taskIds_okExt, l4]; simpa using hs2
+      · rw [lifespanSt_ok2 s env hf henv.2.1, List.mem_append, not_or]; exact ⟨hs3, not_mem_okExt _ _ _ _ _⟩
+    · exact ⟨rfl, hL, by simp [obs2_cons, vis, taskIds], by simp [obs2_cons, vis]⟩
+  obtain ⟨s', ⟨hf, h1, h2, h3⟩, hr⟩ := key
+  have h3' : Act.restartReq ∉ obs s'.acts.reverse := by
+    rw [mem_obs _ rfl, ← mem_obs2 _ rfl]; exact h3
+  rw [hr, mem_finish_restart _ _ h3', taskIds_finish2, h2]
+  simp [henv.2.2, hf, reached, h1]
 
 theorem no_restart_without_lifespan (p : Params) (env : Env) (items : List Item) (hL : p.lifespan = none)
     (hl : sameLifespan p items = true) : Act.restartReq ∉ run p env items := by
-  sorry
+  obtain ⟨s', ⟨⟨_, h⟩, hp⟩, hr⟩ := run_balanced p env items (fun q => q.lifespan = none) (by
+    intro q hq
+    have := List.all_eq_true.1 hl _ hq
+    simpa [hL] using this) hL
+  rw [hr, mem_finish_restart _ _ h]
+  simp [reached, hp]
 
 theorem no_restart_after_failure (p : Params) (env : Env) (items : List Item) (h : env.excAtEnd = true) :
     Act.restartReq ∉ run p env items := by
-  sorry
+  obtain ⟨s', ⟨⟨_, h'⟩, _⟩, hr⟩ := run_balanced p env items (fun _ => True) (fun _ _ => trivial) trivial
+  rw [hr, mem_finish_restart _ _ h']
+  simp [h]
 
 end Mpire.Proofs.Worker
